@@ -1073,6 +1073,8 @@ func (w *world) expand(op opSpec) []opSpec {
 // kubelet plays scheduler and kubelet for the pods selected by op.Cmd: "all", "finalize" (only remove
 // terminating pods), "ready" (only start pods); op.Seconds > 0 restricts to pods whose index modulo
 // op.Seconds is 0 (a partial settle).
+const crashLoopAnnotation = "verif.example/crashloop"
+
 func (w *world) kubelet(op opSpec) error {
 	ctx := context.TODO()
 	var pods corev1.PodList
@@ -1097,7 +1099,49 @@ func (w *world) kubelet(op opSpec) error {
 
 			continue
 		}
+		if op.Cmd == "crashloop" {
+			// the containers of this pod start crash-looping and stay so: not Ready, waiting in CrashLoopBackOff,
+			// a growing restart count; later kubelet passes leave the pod alone
+			if p.Status.Phase != corev1.PodRunning || p.Spec.NodeName == "" {
+				continue
+			}
+			now := metav1.NewTime(time.Now().Truncate(time.Second))
+			if p.Annotations == nil {
+				p.Annotations = map[string]string{}
+			}
+			p.Annotations[crashLoopAnnotation] = "true"
+			st := p.Status.DeepCopy()
+			if err := w.raw.Update(ctx, p); err != nil {
+				return err
+			}
+			for i := range st.Conditions {
+				if st.Conditions[i].Type == corev1.PodReady {
+					st.Conditions[i].Status = corev1.ConditionFalse
+					st.Conditions[i].LastTransitionTime = now
+				}
+			}
+			if len(st.ContainerStatuses) == 0 {
+				for _, c := range p.Spec.Containers {
+					st.ContainerStatuses = append(st.ContainerStatuses, corev1.ContainerStatus{Name: c.Name})
+				}
+			}
+			for i := range st.ContainerStatuses {
+				st.ContainerStatuses[i].Ready = false
+				st.ContainerStatuses[i].RestartCount += 3
+				st.ContainerStatuses[i].State = corev1.ContainerState{Waiting: &corev1.ContainerStateWaiting{Reason: "CrashLoopBackOff"}}
+				st.ContainerStatuses[i].LastTerminationState = corev1.ContainerState{Terminated: &corev1.ContainerStateTerminated{Reason: "Error", ExitCode: 1, FinishedAt: now}}
+			}
+			p.Status = *st
+			if err := w.raw.Status().Update(ctx, p); err != nil {
+				return err
+			}
+
+			continue
+		}
 		if op.Cmd != "all" && op.Cmd != "ready" {
+			continue
+		}
+		if p.Annotations[crashLoopAnnotation] == "true" {
 			continue
 		}
 		if p.Status.Phase == corev1.PodFailed || p.Status.Phase == corev1.PodSucceeded || p.Status.Phase == corev1.PodUnknown {
